@@ -32,10 +32,13 @@ func MakeFromRequest(r *http.Request) CacheKey {
 		scheme = "https"
 	}
 	normHost := strings.ToLower(r.Host)
+	// The path as written on the wire: an escaped separator (%2F) is data, so /x%2Fy and /x/y
+	// are different resources (and are requested from the origin as written)
+	wirePath := r.URL.EscapedPath()
 	// path.Clean drops a trailing slash, but /dir/ and /dir are different resources
-	normPath := path.Clean(r.URL.Path)
+	normPath := path.Clean(wirePath)
 	// (a final "." or ".." segment names a directory as well: /a/. is /a/)
-	dirPath := strings.HasSuffix(r.URL.Path, "/") || strings.HasSuffix(r.URL.Path, "/.") || strings.HasSuffix(r.URL.Path, "/..")
+	dirPath := strings.HasSuffix(wirePath, "/") || strings.HasSuffix(wirePath, "/.") || strings.HasSuffix(wirePath, "/..")
 	if dirPath && normPath != "/" {
 		normPath += "/"
 	}
